@@ -4,7 +4,7 @@ BASE_NOTE = ("Trusted: Coq 8.16.1 kernel (vm_compute for witnesses/examples only
              "the correspondence harness (generators, exact-rational canonicalisation, observation mapping); CPython 3.12/numpy "
              "float64 semantics on the exact (dyadic) input families. The theorems are about the Gallina model; the tie to /repo/src "
              "is the correspondence run on every check (sampled, not proved). ")
-SOURCE_COMMITS = ["bc49a1c", "e3a7f92", "9ed7728", "007ee91", "c29e4c1", "17a47e5", "867807e", "949de5f", "5cc174a", "d64e197", "df761a4", "5d29398", "7a3c11a"]   # "fix:" commits only (no guarded hooks exist)
+SOURCE_COMMITS = ["bc49a1c", "e3a7f92", "9ed7728", "007ee91", "c29e4c1", "17a47e5", "867807e", "949de5f", "5cc174a", "d64e197", "df761a4", "5d29398", "7a3c11a", "0a21c22", "aeeccf6", "59481a8"]   # "fix:" commits only (no guarded hooks exist)
 NOTES = ("Every check: (1) rebuilds the Coq development incrementally and re-checks coq/Props/<id>.v (grep gate for Admitted/Axiom/...); "
          "(2) runs physt from /repo/src and the extracted model on the same seeded cases; (3) applies the extracted check_<id> to the "
          "implementation's observation. VIOLATION lines carry a replay file; 'no-failing-input-found' is appended when only the "
@@ -99,6 +99,18 @@ CLAIMED = {
          "std()**2 are read after every step and checked by the extracted specification."),
    note=BASE_NOTE + "Data are generated strictly inside the bins (as the property states) with dyadic values/weights so that "
         "float sums are exact; np.median and python min/max are modelled by their documented meaning."),
+ "C13": dict(
+   technique="Coq proof of the dtype invariant by induction over histories (recorded dtype vs array dtypes as separate fields) + exhaustive table check + extracted-model correspondence",
+   text=("C13_dtype_invariant: for every history of fill / fill_n / + / - / * / / / normalize / merge_bins / dtype changes (refused "
+         "calls included, adaptive additions included) the recorded dtype equals the element type of frequencies and errors2; "
+         "integer counting stays integer, float weights / factors / division promote to float (never truncate), promotion is "
+         "numpy's join; float->int changes are accepted only for integral in-range contents and errors2, narrowing only in range, "
+         "a refusal changes nothing. numpy's promote_types / can_cast / iinfo / finfo tables are compared EXHAUSTIVELY (7x7) with "
+         "the model's on every run; every generated history is executed on physt with dtype, frequencies.dtype, errors2.dtype and "
+         "all values read after each call (values exact, with the model rounding to the float format on astype)."),
+   note=BASE_NOTE + "numpy's result-dtype rules (NEP 50 weak python scalars) are transcribed and compared, not verified; "
+        "subnormal rounding is not modelled; integer overflow inside numpy sums is outside the property (values are generated "
+        "below the limits except for the range tests of explicit dtype changes)."),
  "C10": dict(
    technique="Coq proof (induction over arbitrary frequency lists / N-d arrays) + extracted-model correspondence",
    text=("Theorems (all sizes, all dimensions, closed under the global context): the min_frequency loop always yields a gap-free "
